@@ -363,6 +363,15 @@ func (l *queryLog) parseSearchParams(
 		p.maxFileScanEntries = 0
 	}
 
+	switch {
+	case p.limit < 0:
+		return nil, fmt.Errorf("limit: negative value %d", p.limit)
+	case p.offset < 0:
+		return nil, fmt.Errorf("offset: negative value %d", p.offset)
+	case p.offset > math.MaxInt-p.limit:
+		return nil, fmt.Errorf("offset: value %d is too large", p.offset)
+	}
+
 	for _, v := range []struct {
 		urlField string
 		ct       criterionType
